@@ -13,7 +13,7 @@ cd $wt
 moddir=${MODDIR:-.}
 git apply $chg/patch.diff || { res "patch-does-not-apply"; git -C /repo worktree remove --force $wt; exit 2; }
 if (cd $moddir && go test -vet=off -count=1 $pkgs) > $wt/.t_existing.log 2>&1; then ex=pass; else ex=FAIL; fi
-cp $chg/demo/*.go $moddir/$dst/ 2>/dev/null
+mkdir -p $moddir/$dst; cp $chg/demo/*.go $moddir/$dst/ 2>/dev/null
 runre=$(grep -h "^func Test" $chg/demo/*.go | sed 's/func \(Test[A-Za-z0-9_]*\).*/\1/' | paste -sd'|')
 runargs=(-run "^($runre)\$")
 if [ -z "$runre" ]; then runargs=("-ginkgo.focus=${FOCUS:-SEED}"); fi
